@@ -14,7 +14,7 @@ fn fmt_stub2(_a: core::fmt::Arguments<'_>) -> String {
 // @harness c08_fragment_retry
 // @props C08 C03 C12
 // @tier quick
-// @cost 150
+// @cost 52
 // @timeout 1500
 // @needs T0
 // @desc the whole body of try_allocate_from (the cross-slice loop with fragment retry), with try_alloc_from_rb_slice replaced by its CONTRACT (any result the alloc-step harnesses allow) and free_clusters recorded: whatever the slices grant, the run finally returned is ONE contiguous range made of adjacent grants, no longer than requested; every granted piece that is not part of the returned run was given back through free_clusters exactly once; nothing that is returned was freed; every slice it consults belongs to the one refcount block whose reftable entry it resolved (it never runs past the end of that block)
